@@ -52,18 +52,27 @@ func NewCacheKeystoreWrapper(size int) (*Cache, error) {
 
 // Add value by keyID
 func (cache *Cache) Add(keyID string, keyValue []byte) {
+	// cache owns its values: they are zeroized on eviction, so keep a copy and not the caller's slice
+	ownValue := make([]byte, len(keyValue))
+	copy(ownValue, keyValue)
 	cache.mutex.Lock()
-	cache.lru.Add(keyID, keyValue)
+	cache.lru.Add(keyID, ownValue)
 	cache.mutex.Unlock()
 }
 
 // Get value by keyID
 func (cache *Cache) Get(keyID string) ([]byte, bool) {
-	cache.mutex.RLock()
-	defer cache.mutex.RUnlock()
+	// lru.Cache.Get moves found element to the front of its list, so it is a write operation and
+	// requires exclusive lock
+	cache.mutex.Lock()
+	defer cache.mutex.Unlock()
 	value, ok := cache.lru.Get(keyID)
 	if ok {
-		return value.([]byte), ok
+		// return a copy: cached value may be evicted and zeroized by concurrent Add while caller uses it
+		cachedValue := value.([]byte)
+		result := make([]byte, len(cachedValue))
+		copy(result, cachedValue)
+		return result, ok
 	}
 	return nil, ok
 }
